@@ -352,7 +352,10 @@ func (c *Circuit) checkErrInterrupt(ctx context.Context, originalContext context
 		return false
 	}
 
+	// notThreadSafeConfig is replaced by SetConfigThreadSafe: read it under its mutex
+	c.notThreadSafeConfigMu.Lock()
 	isErrInterrupt := c.notThreadSafeConfig.Execution.IsErrInterrupt
+	c.notThreadSafeConfigMu.Unlock()
 	if isErrInterrupt == nil {
 		isErrInterrupt = func(_ error) bool {
 			// By default, we consider any error from the original context an interrupt causing error
